@@ -23,7 +23,7 @@ def model_apply(ref, op):
     """The operation applied to the reference model (returns the new model)."""
     ref = ref.copy()
     kind = op[0]
-    if kind == "load":
+    if kind in ("load", "reload"):
         ref.load(op[1])
     elif kind == "persist":
         _, si, d, seq, tag = op
@@ -38,7 +38,7 @@ def real_apply(j, sessions, keys, op):
     """The operation applied to the real Journaler (the session object is kept in step, as the
     connection does)."""
     kind = op[0]
-    if kind == "load":
+    if kind in ("load", "reload"):
         si = op[1]
         t, s = SESS[si]
         sess = j.create_or_load(t, s)
@@ -141,6 +141,8 @@ def h_crash(I, plan, lo, hi, slot_lo=1, slot_hi=MAXSLOT):
             ops.append(("set", I.choice(f"sess{k}", 2), nout, nin))
         elif p == "reset":
             ops.append(("set", I.choice(f"sess{k}", 2), 1, 1))
+        elif p == "reload":
+            ops.append(("reload", I.choice(f"sess{k}", 2)))
     # sessions must exist before they are used: load both first (these are operations too)
     ops = [("load", 0), ("load", 1)] + ops
     crash_at = I.int("crash_slot", slot_lo, slot_hi)
@@ -184,9 +186,10 @@ def cells(tier):
     quick = tier == "quick"
     lo, hi = (10, 99)
     stub = stubcheck.run()
-    plans = [("persist",), ("set",), ("persist", "set"), ("set", "persist"), ("persist", "persist"), ("persist", "reset")]
+    plans = [("persist",), ("set",), ("persist", "set"), ("set", "persist"), ("persist", "persist"), ("persist", "reset"),
+             ("reload", "persist"), ("persist", "reload", "persist")]
     if not quick:
-        plans += [("persist", "persist", "set"), ("persist", "set", "persist"), ("set", "persist", "persist"),
+        plans += [("reload", "set", "persist"), ("persist", "persist", "set"), ("persist", "set", "persist"), ("set", "persist", "persist"),
                   ("persist", "set", "set"), ("reset", "persist", "set"), ("persist", "persist", "persist", "set")]
     out = []
     shards = [(1, 14), (15, 20), (21, 26), (27, MAXSLOT)]
